@@ -54,7 +54,7 @@ pub fn meta(m: &mut PropMeta) {
     m.explanation = "fault enumeration at process level: the fault sequence of every generator child (start failure, exit status, signal, stderr, early close of stdin, every truncation and corruption class of the reply) is scripted and enumerated as a complete product, with explicit delay points as bounded schedule deviations";
     m.quick_bound = "1 generator: all 24 rows + every truncation x 4 delay variants + 3 large-data rows; 2 generators: 24 x 24 (+ <=1 delay deviation over 8 x 8); 3 generators: 8^3; output states: 11 rows x 8 states alone and with 2 neighbours; big payload: 25 + 3 rows alone + 48 pairs; truncations next to a healthy neighbour";
     m.thorough_bound = "as quick, plus: <=1 delay deviation on all 24 x 24 pairs and all 8^3 triples; 24 x 24 pairs and 8^3 triples in all 8 output states; output states x 8 neighbours x both orders; delay deviations on the big-payload rows; every truncation next to each of 8 neighbours in both orders";
-    m.quick_cap_s = 60.0;
+    m.quick_cap_s = 120.0;
     m.thorough_cap_s = 600.0;
 }
 
